@@ -6,7 +6,7 @@ HOOKS = {
     "enable": "harness/*/Cargo.toml depend on async-graphql by path (/repo) with features=[\"verif-hooks\"]; "
               "every ./check call rebuilds the engine with cargo, so /repo's working tree is what runs",
     "baseline_off_cmd": "cd /repo && cargo nextest run --workspace --no-fail-fast --offline",
-    "source_commits": [],
+    "source_commits": ["ed60420"],
     "add_only": True,
 }
 
@@ -123,6 +123,11 @@ PROPS = {
               "Exploration: random histories (<=40 ops, <=5 keys, one or two key types) of load/feed/clear/enable/get_cached_values compared with a reference "
               "cache model; panics are violations.",
               "Where the insertion order inside one batch is unspecified the model keeps the set of possible LRU states."),
+    "C30": _p("vh-exec", "hook-trace monitor (recording pass-through extensions) + differential response monitor across stacks of 0-3 extensions",
+              "Exploration: generated queries/mutations (valid, syntax error, unknown field, unknown operation) on S1 and dynamic schemas executed with 0,1,2,3 "
+              "recording pass-through extensions; responses (data, errors, extensions, cache policy, headers) must be identical, hooks nested in registration order, "
+              "lifecycle hooks once and in order, resolve hooks = positions completed by the reference executor.",
+              "Where a response key is written twice the crate resolves per occurrence (C04 finding); there only the set of hooked positions is compared, not the count."),
     "C31": _p("vh-gate", "reference store model over request histories; resolver log shows which text ran",
               "Exploration: random request histories against the real ApolloPersistedQueries extension with LRU and harness stores; executed tags, lookups and "
               "store contents are compared with a reference model after every request.",
